@@ -10,19 +10,20 @@ Open Scope Q_scope.
 Inductive obs :=
 | ONone
 | OProg (chans : list chan) (dur : Q) (samples : list (chan * list (Q * option Q)))
-| OErr (e : err).
+| OErr (e : err)
+| OUnplayable.     (* create_program returned a program, to_waveform(program) raised ValueError *)
 
 Inductive case :=
 | CCase (p : pt) (env : list (N * Q)) (cm : list (chan * option chan)) (o : obs)
+| CCaseM (p : pt) (env : list (N * Q)) (cm : list (chan * option chan)) (o : obs)
+    (* model side only: inputs of a KNOWN finding are emitted twice, once as CCase (specification oracle; the check skips
+       the model comparison of a classified failure) and once as CCaseM (model comparison, oracle not consulted) *)
 | CCrash.
 
 Definition oq_eqb (a b : option Q) : bool := opt_eqb Qeq_bool a b.
 
-Definition check_corr (c : case) : bool :=
-  match c with
-  | CCrash => false
-  | CCase p env cm o =>
-      match create_program p env cm None, o with
+Definition corr_body (p : pt) (env : list (N * Q)) (cm : list (chan * option chan)) (o : obs) : bool :=
+      match create_program_b p env cm None, o with     (* the builder form with its frame stack; = create_program (cpb_cp) *)
       | Err e, OErr e' => err_eqb e e'
       | Ok None, ONone => true
       | Ok (Some prog), OProg chans dur samples =>
@@ -36,13 +37,20 @@ Definition check_corr (c : case) : bool :=
                                     (if Qltb' (fst tv) dur then oq_eqb (play prog (fst cs) (fst tv)) (snd tv) else true))
                                  (snd cs)) samples
           end
+      | Ok (Some prog), OUnplayable => match to_waveform prog with Err _ => true | Ok _ => false end
       | _, _ => false
-      end
+      end.
+
+Definition check_corr (c : case) : bool :=
+  match c with
+  | CCrash => false
+  | CCase p env cm o | CCaseM p env cm o => corr_body p env cm o
   end.
 
 Definition check_spec (c : case) : bool :=
   match c with
   | CCrash => false
+  | CCaseM _ _ _ _ => true
   | CCase p env cm o =>
       match denote_top p env cm, o with
       | Err _, OErr _ => true
